@@ -43,7 +43,7 @@ import jinja2.environment as ENV
 import jinja2.runtime as RT
 from jinja2.utils import missing
 
-from contracts import c20, c02_parser
+from contracts import c20, c02_parser, c02_eval
 from contracts.c17_emit import getattr_pred, getitem_pred
 from contracts.c18_emit import call_pred
 from contracts.emit_common import is_hole, hole_of, strip_async, wrap_predicate
@@ -79,6 +79,15 @@ def native_expressions(w=None):
     """precedence family (c02_parser) + lookup-order / undefined family, on the real environment"""
     bad, detail = c02_parser.native_precedence(w)
     problems = [detail] if bad else []
+
+    def attempt(what, fn):
+        try:
+            r = fn()
+            if r:
+                problems.append(r if isinstance(r, str) else what)
+        except Exception as ex:  # noqa
+            problems.append(f"{what}: {type(ex).__name__}: {str(ex)[:100]}")
+
     env = jinja2.Environment()
     env.globals["g"] = "from-globals"
     data = dict(o=_Obj(), d={"k": 5, "items": "ITEMS"}, l=[1, 2, 3], t=(1, 2), s="xyz", g="from-vars")
@@ -89,24 +98,72 @@ def native_expressions(w=None):
             got = f"{type(ex).__name__}: {ex}"
         if type(got) is not type(want) or got != want:
             problems.append(f"{src!r} evaluates to {got!r}, documented reading gives {want!r}")
-    if env.compile_expression("nothing")() is not None or not isinstance(env.compile_expression("nothing", undefined_to_none=False)(), jinja2.Undefined):
-        problems.append("compile_expression: undefined result is not mapped to None exactly when undefined_to_none")
-    try:
-        env.compile_expression("1 2")
-        problems.append("'1 2' is accepted by compile_expression")
-    except jinja2.TemplateSyntaxError:
-        pass
-    for src in ("{{ 1|nosuchfilter }}", "{{ 1 is nosuchtest }}"):
+
+    def undefined_mapping():
+        a, b = env.compile_expression("nothing")(), env.compile_expression("nothing", undefined_to_none=False)()
+        if a is not None or not isinstance(b, jinja2.Undefined):
+            return "compile_expression: undefined result is not mapped to None exactly when undefined_to_none"
+        if b._undefined_name != "nothing":
+            return f"undefined name carries {b._undefined_name!r} instead of the looked-up name"
+        if env.compile_expression("1")() != 1 or env.compile_expression("none", undefined_to_none=False)() is not None:
+            return "compile_expression does not return the value of the expression"
+
+    attempt("undefined mapping", undefined_mapping)
+
+    def leftover():
         try:
-            env.from_string(src)
-            problems.append(f"{src!r} compiles although the filter/test does not exist")
-        except jinja2.TemplateAssertionError:
-            pass
-    try:
+            env.compile_expression("1 2")
+            return "'1 2' is accepted by compile_expression"
+        except jinja2.TemplateSyntaxError:
+            return None
+
+    attempt("chunk after expression", leftover)
+
+    def unknown_filter():
+        for src in ("{{ 1|nosuchfilter }}", "{{ 1 is nosuchtest }}"):
+            try:
+                env.from_string(src)
+                return f"{src!r} compiles although the filter/test does not exist"
+            except jinja2.TemplateAssertionError:
+                pass
         if env.from_string("{{ x|nosuchfilter if false else 'ok' }}").render() != "ok":
-            problems.append("unknown filter in an untaken inline-if branch changes the result")
-    except Exception as ex:  # noqa
-        problems.append(f"unknown filter in an untaken inline-if branch fails at compile time: {type(ex).__name__}")
+            return "unknown filter in an untaken inline-if branch changes the result"
+
+    attempt("unknown filter / test", unknown_filter)
+
+    def implicit_else():
+        strict = jinja2.Environment(undefined=jinja2.StrictUndefined)
+        v = strict.compile_expression("1 if false", undefined_to_none=False)()
+        if type(v) is not jinja2.Undefined:
+            return f"missing else evaluates to {type(v).__name__}, documented: an Undefined regardless of the environment's undefined"
+        if strict.from_string("[{{ 1 if false }}]").render() != "[]":
+            return "missing else does not print as empty"
+
+    attempt("inline if without else", implicit_else)
+
+    def autoescape_concat():
+        from markupsafe import Markup
+        ae = jinja2.Environment(autoescape=True)
+        got = ae.from_string("{{ '<' ~ m }}|{{ a ~ '<' }}").render(m=Markup("<b>"), a="&")
+        if got != "&lt;<b>|&amp;&lt;":
+            return f"`~` under autoescape renders {got!r}"
+        if jinja2.Environment().from_string("{{ '<' ~ m }}").render(m="<b>") != "<<b>":
+            return "`~` without autoescape escapes"
+
+    attempt("concat under autoescape", autoescape_concat)
+
+    def pass_arg_filters():
+        e2 = jinja2.Environment()
+        e2.filters["pc"] = jinja2.pass_context(lambda ctx, v, x=0: (type(ctx).__name__, v, x))
+        e2.filters["pe"] = jinja2.pass_eval_context(lambda ec, v, x=0: (type(ec).__name__, v, x))
+        e2.filters["pv"] = jinja2.pass_environment(lambda en, v, x=0: (type(en).__name__, v, x))
+        e2.tests["pt"] = jinja2.pass_environment(lambda en, v, x=0: (type(en).__name__, v, x) == ("Environment", 1, 2))
+        want = [("Context", 1, 2), ("EvalContext", 1, 2), ("Environment", 1, 2), True]
+        got = [e2.compile_expression(s_)() for s_ in ("1|pc(2)", "1|pe(2)", "1|pv(x=2)", "1 is pt(2)")]
+        if got != want:
+            return f"@pass_* filters/tests receive {got!r}"
+
+    attempt("pass-argument filters", pass_arg_filters)
     return (bool(problems), "; ".join(problems[:4]) or "precedence, lookup-order and undefined families evaluate as documented")
 
 
@@ -322,6 +379,8 @@ def const_pred(sc, tree, ph, txt):
     if sc.outcome == "raise":
         return [f"raises {sc.value!r}"]
     t = txt.strip()
+    if t.startswith("(") and t.endswith(")"):
+        t = t[1:-1].strip()       # a parenthesised literal is the same literal
     p = ph.get(t)
     if not (isinstance(p, tuple) and p[0] in ("repr", "str") and "node.value" in str(p[1])):
         return [f"constant is not emitted as repr(value): {txt!r}"]
@@ -610,6 +669,78 @@ def commons(task, tier, seed):
     return rs
 
 
+CONST_SAMPLES = [0, 3, -3, -1, 10 ** 30, -(10 ** 30), 0.5, -0.5, 2.0, -0.0, 1e100, -1e-7, True, False, None, "s", "-x", "it's", 'q"', "a\nb", "\u00e9",
+                 (1, -2), (-1,), [1, -2.5], [-3], {"k": -1}, (), [], {}, 1 + 2j, (-2 - 1j)]
+# Python contexts an expression hole is emitted into by the visitors above (read off the schemas): the operand is
+# substituted textually, so the text must stay ONE operand in the tightest of them
+HOLE_CONTEXTS = [("({} ** z)", lambda t: t.left), ("(z ** {})", lambda t: t.right), ("{}[z:]", lambda t: t.value), ("(-{})", lambda t: t.operand),
+                 ("({} + z)", lambda t: t.left), ("(z - {})", lambda t: t.right), ("({} < z)", lambda t: t.left), ("f({})", lambda t: t.args[0]),
+                 ("({} if z else z)", lambda t: t.body)]
+
+
+def real_const_text(v):
+    env = jinja2.Environment()
+    gen = C.CodeGenerator(env, "t", "t.html")
+    frame = C.Frame(N.EvalContext(env, "t"))
+    gen.visit_Const(N.Const(v), frame)
+    return gen.stream.getvalue()
+
+
+def const_atomic(task, tier, seed):
+    """bounded stand-in for the compositionality assumption of the emission schemas: the text the real visit_Const writes
+    for a constant is a single Python operand in every hole context, and evaluates to the constant"""
+    t0 = time.time()
+    task.bound_text = (f"{len(CONST_SAMPLES)} sample constants (ints, floats incl. negative / -0.0, bools, None, strings, tuples, lists, dicts, complex; "
+                       f"non-finite floats are C08.const.roundtrip) x {len(HOLE_CONTEXTS)} hole contexts")
+    bad = []
+    for v in CONST_SAMPLES:
+        try:
+            txt = real_const_text(v)
+            own = ast.parse(txt.strip(), mode="eval").body
+            back = eval(txt, {})  # noqa: S307 - text written by visit_Const for a literal sample
+            if type(back) is not type(v) or repr(back) != repr(v):
+                bad.append((repr(v), f"text {txt!r} evaluates to {back!r}"))
+                continue
+            for ctx, pick in HOLE_CONTEXTS:
+                t = ast.parse(ctx.format(txt), mode="eval").body
+                try:
+                    same_operand = ast.dump(pick(t)) == ast.dump(own)
+                except AttributeError:
+                    same_operand = False
+                if not same_operand:
+                    bad.append((repr(v), f"text {txt!r} is not one operand in `{ctx.format(txt)}` (Python reads {ast.unparse(t)})"))
+                    break
+        except Exception as ex:  # noqa
+            bad.append((repr(v), f"{type(ex).__name__}: {ex}"))
+    if not bad:
+        return [Res("C02.emit.Const.operand", "bounded-ok", "native", time.time() - t0, f"{len(CONST_SAMPLES)} constants are written as one Python operand", "bounded")]
+    wit = {"failing": sorted(b[0] for b in bad), "first": bad[0][1]}
+    return [Res("C02.emit.Const.operand", "refuted", "native", time.time() - t0,
+                f"{len(bad)}/{len(CONST_SAMPLES)} constants: " + "; ".join(f"{a}: {b}" for a, b in bad[:3]), "bounded", wit)]
+
+
+def replay_const_atomic(w):
+    """the folded and the unfolded template must agree: a negative constant as left operand of ** / subscript base"""
+    problems = []
+    for src in ("(1 - 4) ** x", "(-3) ** x", "(1 - 1.5) ** x", "(0 - 2) ** x ** x"):
+        try:
+            a = jinja2.Environment().compile_expression(src)(x=2)
+            b = jinja2.Environment(optimized=False).compile_expression(src)(x=2)
+            want = eval(src, {"x": 2}) if "** x ** x" not in src else ((0 - 2) ** 2) ** 2  # noqa: S307
+        except Exception as ex:  # noqa
+            problems.append(f"{src!r}: {type(ex).__name__}")
+            continue
+        if a != want or b != want:
+            problems.append(f"{src!r} with x=2: optimized {a!r}, unoptimized {b!r}, documented {want!r}")
+    return (bool(problems), "; ".join(problems[:3]) or "negative constants as left operand of ** evaluate as documented")
+
+
+class _ConstTask(FnTask):
+    def finding_key(self, res):
+        w = res.witness or {}
+        return "|".join(w.get("failing", ["?"]))
+
+
 def _present(*names):
     def fields(st):
         return {n: emit.make_node(st, N.Expr, f"node.{n}", kind="expr") for n in names}
@@ -641,6 +772,7 @@ def emission_tasks():
     for kind in ("Tuple", "List", "Dict"):
         ts.append(EmitTask(PROP, f"C02.emit.{kind}", V + kind, getattr(N, kind), seq_pred(kind), replay_fn=R, min_paths=3))
     ts.append(EmitTask(PROP, "C02.emit.Const", V + "Const", N.Const, const_pred, mode="raw", replay_fn=R, min_paths=2))
+    ts.append(_ConstTask(PROP, "C02.emit.Const.operand", const_atomic, "bounded", replay_const_atomic))
     ts.append(EmitTask(PROP, "C02.emit.Name", V + "Name", N.Name, name_pred, replay_fn=R, min_paths=4))
     ts.append(FnTask(PROP, "C02.emit.enter_frame", enter_frame, "emission", R))
     ts.append(FnTask(PROP, "C02.emit.commons", commons, "table", R))
@@ -690,5 +822,656 @@ def logic_pred(cls, op):
     return pred
 
 
-TASKS = emission_tasks()
-META = {"level": "other", "explanation": "", "assumptions": [], "trusted_base": []}
+# =====================================================================================================================
+# C02.tables.operators: symbol -> token -> parser table -> node class -> visitor constant -> folding function -> Python
+# =====================================================================================================================
+
+# documented operators (docs/templates.rst: Math, Comparisons, Logic, Other Operators) and their Python meaning
+DOC_BINARY = {"+": ("add", "Add", pyop.add), "-": ("sub", "Sub", pyop.sub), "*": ("mul", "Mul", pyop.mul), "/": ("div", "Div", pyop.truediv),
+              "//": ("floordiv", "FloorDiv", pyop.floordiv), "%": ("mod", "Mod", pyop.mod), "**": ("pow", "Pow", pyop.pow)}
+DOC_UNARY = {"-": ("sub", "Neg", pyop.neg), "+": ("add", "Pos", pyop.pos), "not": ("name", "Not", pyop.not_)}
+DOC_LOGIC = {"and": ("And", lambda a, b: a and b), "or": ("Or", lambda a, b: a or b)}
+DOC_COMPARE = {"==": ("eq", pyop.eq), "!=": ("ne", pyop.ne), ">": ("gt", pyop.gt), ">=": ("gteq", pyop.ge), "<": ("lt", pyop.lt), "<=": ("lteq", pyop.le),
+               "in": ("in", lambda a, b: a in b), "not in": ("notin", lambda a, b: a not in b)}
+SAMPLES_NUM = [(7, 2), (2, 7), (-7, 2), (7.5, 2), (0, 3), (9, 4)]
+SAMPLES_CMP = [(1, 2), (2, 1), (2, 2), ("a", "b"), ("b", "a"), ((1, 2), (1, 3))]
+SAMPLES_IN = [(1, [1, 2]), (3, [1, 2]), ("a", "abc"), ("z", "abc"), ("k", {"k": 1}), (2, (1,))]
+SAMPLES_BOOL = [(0, 5), (5, 0), ("", "x"), ("x", ""), ([], [1]), (None, 0), (3, 4)]
+
+
+def _closure_op(cls_name):
+    vis = getattr(C.CodeGenerator, f"visit_{cls_name}")
+    inner = getattr(vis, "__wrapped__", vis)
+    cell = dict(zip(inner.__code__.co_freevars, [c.cell_contents for c in (inner.__closure__ or ())]))
+    return cell.get("op")
+
+
+def _same_on(f, g, samples):
+    for a in samples:
+        try:
+            x = f(*a)
+        except Exception as ex:  # noqa
+            x = type(ex)
+        try:
+            y = g(*a)
+        except Exception as ex:  # noqa
+            y = type(ex)
+        if type(x) is not type(y) or x != y:
+            return f"differs on {a!r}: {x!r} vs {y!r}"
+    return None
+
+
+def _lex_types(src):
+    env = jinja2.Environment()
+    return [(t.type, t.value) for t in env.lexer.tokenize("{{ " + src + " }}")][1:-1]
+
+
+def operator_tables(task, tier, seed):
+    rs = []
+
+    def row(name, ok, detail=""):
+        rs.append(Res(f"C02.tables.operators.{name}", "discharged" if ok else "refuted", "table", 0, detail, "table", None if ok else {"table": name, "detail": detail[:200]}))
+
+    ectx = N.EvalContext(jinja2.Environment())
+    for sym_, (tok, cls, fn) in DOC_BINARY.items():
+        ncls = getattr(N, cls)
+        row(f"[{sym_}].lexer", LX.operators.get(sym_) == tok and _lex_types(f"a {sym_} b") == [("name", "a"), (tok, sym_), ("name", "b")],
+            f"lexer.operators[{sym_!r}] = {LX.operators.get(sym_)!r}; tokens of `a {sym_} b`: {_lex_types(f'a {sym_} b')}")
+        if sym_ != "**":
+            row(f"[{sym_}].parser_table", P._math_nodes.get(tok) is ncls, f"parser._math_nodes[{tok!r}] = {P._math_nodes.get(tok)!r}")
+        row(f"[{sym_}].node_operator", ncls.operator == sym_, f"nodes.{cls}.operator = {ncls.operator!r}")
+        row(f"[{sym_}].visitor_constant", (_closure_op(cls) or "").strip() == sym_, f"CodeGenerator.visit_{cls} closes over op = {_closure_op(cls)!r}")
+        f2 = N._binop_to_func.get(sym_)
+        d = "missing" if f2 is None else _same_on(f2, fn, SAMPLES_NUM)
+        row(f"[{sym_}].fold_function", d is None, f"nodes._binop_to_func[{sym_!r}] {d or 'agrees with operator.' + fn.__name__}")
+        d = _same_on(lambda a, b: ncls(N.Const(a), N.Const(b)).as_const(ectx), fn, [s for s in SAMPLES_NUM])
+        row(f"[{sym_}].as_const", d is None, f"nodes.{cls}(Const a, Const b).as_const {d or 'is a ' + sym_ + ' b'}")
+    row("math_nodes.exact", set(P._math_nodes) == {t for s_, (t, c, f) in DOC_BINARY.items() if s_ != "**"}, f"parser._math_nodes keys = {sorted(P._math_nodes)}")
+    for sym_, (tok, cls, fn) in DOC_UNARY.items():
+        ncls = getattr(N, cls)
+        if sym_ != "not":
+            row(f"[unary {sym_}].lexer", LX.operators.get(sym_) == tok, f"lexer.operators[{sym_!r}] = {LX.operators.get(sym_)!r}")
+        else:
+            row("[not].lexer", _lex_types("not a") == [("name", "not"), ("name", "a")], f"`not` is lexed as {_lex_types('not a')[:1]}")
+        row(f"[unary {sym_}].node_operator", ncls.operator == sym_, f"nodes.{cls}.operator = {ncls.operator!r}")
+        row(f"[unary {sym_}].visitor_constant", (_closure_op(cls) or "").strip() == sym_, f"CodeGenerator.visit_{cls} closes over op = {_closure_op(cls)!r}")
+        f2 = N._uaop_to_func.get(sym_)
+        smp = [(a,) for a, b in SAMPLES_NUM] if sym_ != "not" else [(a,) for a, b in SAMPLES_BOOL]
+        d = "missing" if f2 is None else _same_on(f2, fn, smp)
+        row(f"[unary {sym_}].fold_function", d is None, f"nodes._uaop_to_func[{sym_!r}] {d or 'agrees with operator.' + fn.__name__}")
+        d = _same_on(lambda a: ncls(N.Const(a)).as_const(ectx), fn, smp)
+        row(f"[unary {sym_}].as_const", d is None, f"nodes.{cls}(Const a).as_const {d or 'is ' + sym_ + ' a'}")
+    for sym_, (cls, fn) in DOC_LOGIC.items():
+        ncls = getattr(N, cls)
+        row(f"[{sym_}].lexer", _lex_types(f"a {sym_} b") == [("name", "a"), ("name", sym_), ("name", "b")], f"`{sym_}` is lexed as {_lex_types('a ' + sym_ + ' b')[1:2]}")
+        row(f"[{sym_}].node_operator", ncls.operator == sym_, f"nodes.{cls}.operator = {ncls.operator!r}")
+        row(f"[{sym_}].visitor_constant", (_closure_op(cls) or "").strip() == sym_, f"CodeGenerator.visit_{cls} closes over op = {_closure_op(cls)!r}")
+        d = _same_on(lambda a, b: ncls(N.Const(a), N.Const(b)).as_const(ectx), fn, SAMPLES_BOOL)
+        row(f"[{sym_}].as_const", d is None, f"nodes.{cls}(Const a, Const b).as_const {d or 'is a ' + sym_ + ' b (operand values, short circuit)'}")
+    for sym_, (tok, fn) in DOC_COMPARE.items():
+        samples = SAMPLES_IN if "in" in sym_ else SAMPLES_CMP
+        if "in" not in sym_:
+            row(f"[{sym_}].lexer", LX.operators.get(sym_) == tok and _lex_types(f"a {sym_} b")[1] == (tok, sym_), f"lexer.operators[{sym_!r}] = {LX.operators.get(sym_)!r}")
+            row(f"[{sym_}].parser_table", tok in P._compare_operators, f"{tok!r} in parser._compare_operators: {tok in P._compare_operators}")
+        row(f"[{sym_}].compiler_operators", C.operators.get(tok) == sym_, f"compiler.operators[{tok!r}] = {C.operators.get(tok)!r}")
+        try:
+            py = type(ast.parse(f"a {C.operators.get(tok)} b", mode="eval").body.ops[0])
+        except Exception:  # noqa
+            py = None
+        row(f"[{sym_}].python_operator", py is DOC_CMP[tok], f"`a {C.operators.get(tok)} b` is Python's {getattr(py, '__name__', py)}")
+        f2 = N._cmpop_to_func.get(tok)
+        d = "missing" if f2 is None else _same_on(f2, fn, samples)
+        row(f"[{sym_}].fold_function", d is None, f"nodes._cmpop_to_func[{tok!r}] {d or 'agrees with Python ' + sym_}")
+        d = _same_on(lambda a, b: N.Compare(N.Const(a), [N.Operand(tok, N.Const(b))]).as_const(ectx), fn, samples)
+        row(f"[{sym_}].as_const", d is None, f"Compare(Const a, [Operand({tok!r}, Const b)]).as_const {d or 'is a ' + sym_ + ' b'}")
+    row("compare_operators.exact", set(P._compare_operators) == {t for s_, (t, f) in DOC_COMPARE.items() if "in" not in s_} and set(C.operators) == {t for t, f in DOC_COMPARE.values()}
+        and set(N._cmpop_to_func) == set(C.operators), f"parser._compare_operators = {sorted(P._compare_operators)}, compiler.operators = {sorted(C.operators)}")
+    row("[~].lexer", LX.operators.get("~") == "tilde" and _lex_types("a ~ b")[1] == ("tilde", "~"), f"lexer.operators['~'] = {LX.operators.get('~')!r}")
+    d = _same_on(lambda a, b: N.Concat([N.Const(a), N.Const(b)]).as_const(ectx), lambda a, b: str(a) + str(b), [(1, 2), ("a", 3), ("a", "b"), (None, 1.5)])
+    row("[~].as_const", d is None, f"Concat([Const a, Const b]).as_const {d or 'is str(a) + str(b)'}")
+    d = _same_on(lambda a, b: RT.str_join((a, b)), lambda a, b: str(a) + str(b), [(1, 2), ("a", 3), ("<", ">")])
+    row("[~].str_join", d is None, f"runtime.str_join {d or 'is the concatenation of str(operand)'}")
+    from markupsafe import Markup, escape
+    d = _same_on(lambda a, b: RT.markup_join((a, b)), lambda a, b: (Markup("").join([a, b]) if hasattr(a, "__html__") or hasattr(b, "__html__") else str(a) + str(b)),
+                 [(1, 2), ("<", Markup("<b>")), (Markup("<i>"), "<"), ("a", "b")])
+    row("[~].markup_join", d is None, f"runtime.markup_join {d or 'escapes unsafe operands once a Markup operand is present'}")
+    # one symbol - one token: the longest-match lexing of the documented spellings
+    for a, b in (("**", "*"), ("//", "/"), ("<=", "<"), (">=", ">"), ("==", "=")):
+        row(f"[{a}].longest_match", _lex_types(f"a {a} b")[1][1] == a, f"`a {a} b` lexes to {_lex_types(f'a {a} b')[1]}")
+    return rs
+
+
+# =====================================================================================================================
+# C02.env.getattr_order / getitem_order
+# =====================================================================================================================
+
+class _AttrSub(AttributeError):
+    pass
+
+
+# what a lookup on a data object may do: return a value, or raise one of these / something else entirely
+DATA_RAISES = (AttributeError, _AttrSub, TypeError, KeyError, IndexError, LookupError, ValueError, RuntimeError, ZeroDivisionError)
+ITEM_SIGNALS = (TypeError, LookupError, AttributeError)     # "there is no such item" (docs: lookups that fail fall through)
+ATTR_SIGNALS = (AttributeError,)                              # "there is no such attribute"
+
+
+def install_data_object(I):
+    """the data object's attribute / item lookup as abstract callees recording 'call' events"""
+
+    def lookup(name):
+        def h(I_, st, args, kwargs, node):
+            o, k = args[0], args[1]
+            if not (isinstance(o, Sym) and o.k == "obj"):
+                return None
+            ln = getattr(node, "lineno", None)
+            out = []
+            for cls in DATA_RAISES:
+                s1 = st.fork()
+                e = Exc(cls, (), tag=f"{name}:{cls.__name__}", origin=ln)
+                s1.trace.append(Event("call", name, [o, k], result=e, lineno=ln))
+                out.append((s1, Raised(e)) if not (name == "data.getattr" and len(args) > 2 and issubclass(cls, AttributeError)) else (s1, args[2]))
+            s2 = st.fork()
+            e2 = Exc(None, (), tag=f"{name}:other", within=Exception, origin=ln)
+            e2.excluded = tuple(DATA_RAISES)
+            e2.from_call = name
+            s2.trace.append(Event("call", name, [o, k], result=e2, lineno=ln))
+            out.append((s2, Raised(e2)))
+            v = fresh(name.replace(".", "_") + "_value", "obj", tags={name})
+            st.trace.append(Event("call", name, [o, k], result=v, lineno=ln))
+            out.append((st, v))
+            return out
+        return h
+
+    I.specs["getattr_dyn"] = lookup("data.getattr")
+    I.specs["getitem_obj"] = lookup("data.getitem")
+
+
+def _same(a, b):
+    if isinstance(a, Ref) or isinstance(b, Ref):
+        return isinstance(a, Ref) and isinstance(b, Ref) and a == b
+    if isinstance(a, Sym) and isinstance(b, Sym):
+        return a.t.eq(b.t)
+    return a is b
+
+
+class LookupOrder(VC):
+    """Environment.getattr: attribute, then item, then undefined(obj, name).  Environment.getitem: item, then (string
+    subscripts only) attribute, then undefined(obj, name).  Only the lookup signals fall through; anything else the data
+    object raises propagates unchanged."""
+    prop = PROP
+    expect_paths_min = 6
+
+    def __init__(self, fn, key="str"):
+        self.fn, self.key = fn, key
+        self.target = f"jinja2.environment:Environment.{fn}"
+        VC.__init__(self, PROP, f"C02.env.{fn}_order" + ("" if key == "str" else f"[{key} subscript]"))
+
+    def configure(self, I):
+        install_data_object(I)
+        I.specs["Environment.undefined"] = A.abstract_fn("undefined", returns="obj", tags=("undefined",))
+        if self.key == "nonstr":
+            from contracts import _sbx
+            _sbx.exact_types(I, {"key": int})
+
+    def setup(self, I, st):
+        self.env = A.obj(st, ENV.Environment, "env")
+        self.obj = sym("obj", "obj")
+        self.keyv = sym("key", "str") if self.key == "str" else sym("key", "obj")
+        return [self.env, self.obj, self.keyv], {}
+
+    # the documented rule as a walk over the ghost trace
+    def expected(self, out):
+        evs = [e for e in out.st.trace if e.kind == "call" and e.name in ("data.getattr", "data.getitem", "undefined")]
+        pos = [0]
+
+        def nxt(name):
+            if pos[0] >= len(evs) or evs[pos[0]].name != name:
+                return None
+            e = evs[pos[0]]
+            pos[0] += 1
+            return e
+
+        def lookup_ok(e, key_is_name=True):
+            a = e.args
+            return len(a) == 2 and _same(a[0], self.obj) and (_same(a[1], self.keyv) or (isinstance(a[1], Sym) and isinstance(self.keyv, Sym) and a[1].k == "str" and self.keyv.k == "str" and a[1].t.eq(self.keyv.t)))
+
+        def signals(exc, classes):
+            return exc.cls is not None and issubclass(exc.cls, classes)
+
+        def undefined():
+            e = nxt("undefined")
+            if e is None or e.args[1:] or set(e.kwargs) != {"obj", "name"} or not _same(e.kwargs["obj"], self.obj) or not _same(e.kwargs["name"], self.keyv):
+                return ("fail", "expected undefined(obj=obj, name=key)")
+            return ("value", e.result)
+
+        def attr_then(rest):
+            e = nxt("data.getattr")
+            if e is None or not lookup_ok(e):
+                return ("fail", "expected the attribute lookup getattr(obj, key)")
+            if not isinstance(e.result, Exc):
+                return ("value", e.result)
+            if signals(e.result, ATTR_SIGNALS):
+                return rest()
+            return ("raise", e.result)
+
+        def item_then(rest):
+            e = nxt("data.getitem")
+            if e is None or not lookup_ok(e):
+                return ("fail", "expected the item lookup obj[key]")
+            if not isinstance(e.result, Exc):
+                return ("value", e.result)
+            if signals(e.result, ITEM_SIGNALS):
+                return rest()
+            return ("raise", e.result)
+
+        if self.fn == "getattr":
+            r = attr_then(lambda: item_then(undefined))
+        elif self.key == "str":
+            r = item_then(lambda: attr_then(undefined))
+        else:
+            r = item_then(undefined)
+        if r[0] != "fail" and pos[0] != len(evs):
+            return ("fail", f"further lookups after the result was decided: {evs[pos[0]].name}")
+        return r
+
+    def p_order(self, pre, out):
+        r = self.expected(out)
+        self.last = r
+        if r[0] == "fail":
+            return False
+        if r[0] == "value":
+            return out.returned and _same(out.value, r[1])
+        return out.raised and out.value is r[1]
+
+    posts = [("attribute_item_undefined_order", p_order)]
+
+    def describe(self, out):
+        evs = [f"{e.name}->{'raise ' + (e.result.cls.__name__ if e.result.cls else 'other') if isinstance(e.result, Exc) else 'value'}" for e in out.st.trace
+               if e.kind == "call" and e.name in ("data.getattr", "data.getitem", "undefined")]
+        return f"{self.fn}: {' ; '.join(evs)} => {'raises ' + repr(out.value) if out.raised else 'returns'} (documented: {getattr(self, 'last', ('', ''))[0]} {str(getattr(self, 'last', ('', ''))[1])[:80]})"
+
+    def concretize(self, model, pre, out):
+        seq = []
+        for e in out.st.trace:
+            if e.kind == "call" and e.name in ("data.getattr", "data.getitem"):
+                seq.append([e.name, (e.result.cls.__name__ if e.result.cls else "OtherError") if isinstance(e.result, Exc) else "value"])
+        return {"fn": self.fn, "key": self.key, "lookups": seq}
+
+    def replay(self, w):
+        return replay_lookup(w)
+
+
+def replay_lookup(w):
+    """run the real Environment.getattr / getitem on an object scripted to behave as in the witness"""
+    class OtherError(Exception):
+        pass
+
+    classes = {c.__name__: c for c in DATA_RAISES}
+    classes["OtherError"] = OtherError
+    script = {k: v for k, v in w.get("lookups", [])}
+    log = []
+
+    class Scripted:
+        def __getattr__(self, name):
+            log.append("data.getattr")
+            b = script.get("data.getattr", "AttributeError")
+            if b == "value":
+                return "ATTR"
+            raise classes[b]()
+
+        def __getitem__(self, k):
+            log.append("data.getitem")
+            b = script.get("data.getitem", "KeyError")
+            if b == "value":
+                return "ITEM"
+            raise classes[b]()
+
+    env = jinja2.Environment()
+    key = "k" if w.get("key", "str") == "str" else 3
+    first, second = ("data.getattr", "data.getitem") if w["fn"] == "getattr" else ("data.getitem", "data.getattr")
+    sig = {"data.getattr": ATTR_SIGNALS, "data.getitem": ITEM_SIGNALS}
+    # documented result
+    want = None
+    order = [first] + ([second] if (w["fn"] == "getattr" or key == "k") else [])
+    for step in order:
+        b = script.get(step, "AttributeError" if step == "data.getattr" else "KeyError")
+        if b == "value":
+            want = ("value", "ATTR" if step == "data.getattr" else "ITEM")
+            break
+        if not issubclass(classes[b], sig[step]):
+            want = ("raise", b)
+            break
+    else:
+        want = ("undefined", None)
+    try:
+        got = getattr(env, w["fn"])(Scripted(), key)
+        real = ("undefined", None) if isinstance(got, jinja2.Undefined) else ("value", got)
+    except Exception as ex:  # noqa
+        real = ("raise", type(ex).__name__)
+    return (real != want, f"Environment.{w['fn']}(obj, {key!r}) with lookups {script}: real {real}, documented {want}; lookups performed {log}")
+
+
+# =====================================================================================================================
+# C02.compile_expression / TemplateExpression.__call__ / Context.resolve
+# =====================================================================================================================
+
+class _Callee:
+    def __init__(self, name):
+        self.__name__ = name
+
+
+class ExprCall(VC):
+    """TemplateExpression.__call__(**vars): a new context is made from the given variables, the template's root render
+    function is run to completion on it, and the value is context.vars["result"] afterwards - mapped to None exactly
+    when it is an Undefined and undefined_to_none was requested."""
+    prop = PROP
+    target = "jinja2.environment:TemplateExpression.__call__"
+
+    def __init__(self):
+        VC.__init__(self, PROP, "C02.TemplateExpression.__call__")
+
+    def configure(self, I):
+        c = self
+
+        def new_context(I_, st, args, kwargs, node):
+            v = args[1] if len(args) > 1 else kwargs.get("vars")
+            st.trace.append(Event("call", "template.new_context", [v] + list(args[2:]), dict(kwargs), c.ctx))
+            return [(st, c.ctx)]
+
+        I.specs["Template.new_context"] = new_context
+
+        def root(I_, st, args, kwargs, node):
+            r = fresh("render_generator", "obj", tags={"generator"})
+            st.trace.append(Event("call", "root_render_func", list(args), dict(kwargs), r))
+            return [(st, r)]
+
+        I.specs["call_obj"] = lambda I_, st, args, kwargs, node: (root(I_, st, args[1:], kwargs, node) if isinstance(args[0], Sym) and "root_render_func" in args[0].tags else None)
+
+        def consume(I_, st, args, kwargs, node):
+            # running the template body: it may store anything into context.vars (the compiled Assign stores `result`)
+            h = st.get(c.vars)
+            h.dom = z3.Const(fresh_name("vars_dom_after"), h.dom.sort())
+            h.val = z3.Const(fresh_name("vars_val_after"), h.val.sort())
+            c.after = (h.dom, h.val)
+            st.trace.append(Event("call", "consume", list(args), dict(kwargs), None))
+            e = Exc(None, (), tag="template_body", within=Exception, origin=getattr(node, "lineno", None))
+            s2 = st.fork()
+            s2.trace.append(Event("call", "consume!raise", list(args), {}, e))
+            return [(s2, Raised(e)), (st, None)]
+
+        from jinja2.utils import consume as real_consume
+        I.specs[("fn", id(real_consume))] = consume
+
+        def dict_new(I_, st, args, kwargs, node):
+            st.trace.append(Event("call", "dict", list(args), dict(kwargs) if isinstance(kwargs, dict) else {"**": kwargs}, None))
+            r = st.alloc(HDict(items=dict(kwargs))) if isinstance(kwargs, dict) else None
+            if r is None:
+                raise Unsupported("dict(**symbolic)", node)
+            st.trace[-1].result = r
+            return [(st, r)]
+
+        I.specs[("fn", id(dict))] = dict_new
+
+    def setup(self, I, st):
+        self.vars = A.adict(st, "context.vars", "str", "obj")
+        self.ctx = A.obj(st, RT.Context, "context", fields={"vars": self.vars})
+        self.template = A.obj(st, ENV.Template, "template", fields={"root_render_func": sym("root_render_func", "obj", tags={"root_render_func"})})
+        self.u2n = sym("undefined_to_none", "bool")
+        self.texpr = A.obj(st, ENV.TemplateExpression, "self", fields={"_template": self.template, "_undefined_to_none": self.u2n})
+        self.a, self.b = sym("value_a", "obj"), sym("value_b", "obj")
+        return [self.texpr], {"a": self.a, "b": self.b}
+
+    def p_result(self, pre, out):
+        tr = [e for e in out.st.trace if e.kind == "call"]
+        names = [e.name for e in tr]
+        if out.raised:
+            # what the template body raises; KeyError only if the body never stored `result` (excluded by C02.compile_expression:
+            # the template is `result = <expr>`)
+            if names[-1:] == ["consume!raise"]:
+                return out.value is tr[-1].result
+            return z3.Not(z3.Select(self.after[0], z3.StringVal("result"))) if out.value.cls is KeyError and names[-1:] == ["consume"] else False
+        if [n for n in names if n != "dict"] != ["template.new_context", "root_render_func", "consume"]:
+            return False
+        nc, rr, cs = [e for e in tr if e.name != "dict"]
+        d = nc.args[0]
+        if not (isinstance(d, Ref) and isinstance(out.st.get(d), HDict) and out.st.get(d).concrete):
+            return False
+        items = out.st.get(d).items
+        if set(items) != {"a", "b"} or not (_same(items["a"], self.a) and _same(items["b"], self.b)):
+            return False
+        if not (len(rr.args) == 1 and _same(rr.args[0], self.ctx) and len(cs.args) == 1 and _same(cs.args[0], rr.result)):
+            return False
+        dom, val = self.after
+        rv = z3.Select(val, z3.StringVal("result"))
+        is_undef = isinst_fn(RT.Undefined)(rv)
+        want = z3.If(z3.And(self.u2n.t, is_undef), host_const(None), rv)
+        return z3.Implies(z3.Select(dom, z3.StringVal("result")), to_term(out.value, "obj") == want)
+
+    posts = [("result_is_context_vars_result", p_result)]
+
+    def concretize(self, model, pre, out):
+        return {"undefined_to_none": bool(model_value(model, self.u2n.t))}
+
+    def replay(self, w):
+        return native_expressions(w)
+
+
+class CompileExpression(VC):
+    """Environment.compile_expression(source, undefined_to_none): the source is parsed as ONE expression in variable
+    state (anything left over is a syntax error), wrapped as `result = <expr>` into a template compiled by this
+    environment, and returned as a TemplateExpression carrying the flag."""
+    prop = PROP
+    target = "jinja2.environment:Environment.compile_expression"
+
+    def __init__(self):
+        VC.__init__(self, PROP, "C02.compile_expression")
+
+    def configure(self, I):
+        c = self
+        from contracts import c01_parser as CP
+        CP.install(I, lambda: None, abstract_stream=False, abstract_parse=False, summarise_loops=False)   # Node.__init__ inlined, setattr / zip models
+
+        def parser_new(I_, st, args, kwargs, node):
+            st.trace.append(Event("call", "Parser", list(args), dict(kwargs), c.parser))
+            return [(st, c.parser)]
+
+        I.specs[("fn", id(P.Parser))] = parser_new
+        from jinja2.exceptions import TemplateSyntaxError
+
+        def parse_expression(I_, st, args, kwargs, node):
+            s2 = st.fork()
+            e = Exc(None, (), tag="parse", within=TemplateSyntaxError, origin=getattr(node, "lineno", None))
+            s2.trace.append(Event("call", "parse_expression!raise", list(args[1:]), dict(kwargs), e))
+            st.trace.append(Event("call", "parse_expression", list(args[1:]), dict(kwargs), c.expr))
+            return [(s2, Raised(e)), (st, c.expr)]
+
+        I.specs["Parser.parse_expression"] = parse_expression
+        I.specs["Expr.set_environment"] = A.abstract_fn("expr.set_environment", returns="obj")
+
+        def handle_exception(I_, st, args, kwargs, node):
+            e = Exc(TemplateSyntaxError, (), tag="handle_exception", origin=getattr(node, "lineno", None))
+            st.trace.append(Event("call", "handle_exception", list(args[1:]), dict(kwargs), e))
+            return [(st, Raised(e))]
+
+        I.specs["Environment.handle_exception"] = handle_exception
+        I.specs["Environment.from_string"] = A.abstract_fn("from_string", returns="obj")
+
+        def texpr_new(I_, st, args, kwargs, node):
+            r = st.alloc(HObj(ENV.TemplateExpression, fields={"_template": args[0], "_undefined_to_none": args[1] if len(args) > 1 else kwargs.get("undefined_to_none")}))
+            st.trace.append(Event("call", "TemplateExpression", list(args), dict(kwargs), r))
+            return [(st, r)]
+
+        I.specs[("fn", id(ENV.TemplateExpression))] = texpr_new
+
+    def setup(self, I, st):
+        from contracts import c01_parser as CP
+        self.env = A.obj(st, ENV.Environment, "env")
+        self.eos = sym("stream.eos", "bool")
+        cur = st.alloc(HObj(LX.Token, fields={"lineno": sym("cur.lineno", "int"), "type": sym("cur.type", "str"), "value": sym("cur.value", "str")}, path="cur"), initial=True)
+        self.stream = A.obj(st, LX.TokenStream, "stream", fields={"eos": self.eos, "current": cur})
+        self.parser = A.obj(st, P.Parser, "parser", fields={"stream": self.stream})
+        self.expr = CP.abstract_node(st, N.Expr, "expr")
+        self.source = sym("source", "str")
+        self.u2n = sym("undefined_to_none", "bool")
+        return [self.env, self.source, self.u2n], {}
+
+    def p_result(self, pre, out):
+        tr = [e for e in out.st.trace if e.kind == "call"]
+        names = [e.name for e in tr]
+        from jinja2.exceptions import TemplateSyntaxError
+        if not names or names[0] != "Parser":
+            return False
+        pe = tr[0]
+        ok_parser = (len(pe.args) >= 2 and _same(pe.args[0], self.env) and _same(pe.args[1], self.source)
+                     and (pe.kwargs.get("state") == "variable" or (len(pe.args) > 4 and pe.args[4] == "variable")))
+        if not ok_parser:
+            return False
+        if out.raised:
+            # a syntax error (from the parser, or "chunk after expression"), reported through handle_exception(source=source)
+            he = [e for e in tr if e.name == "handle_exception"]
+            if len(he) != 1 or out.value is not he[0].result or not _same(he[0].kwargs.get("source"), self.source):
+                return False
+            if "parse_expression!raise" in names:
+                return True
+            return z3.Not(self.eos.t)
+        if names != ["Parser", "parse_expression", "expr.set_environment", "from_string", "TemplateExpression"]:
+            return False
+        _, pex, se, fs, te = tr
+        if pex.args or pex.kwargs or not (_same(se.args[0], self.expr) and _same(se.args[1], self.env)):
+            return False
+        # the template: Template([Assign(Name('result', 'store'), expr)])
+        tpl = fs.args[1] if len(fs.args) > 1 else None
+        st = out.st
+        try:
+            h = st.get(tpl)
+            body = st.get(h.fields["body"])
+            ok = h.cls is N.Template and body.concrete and len(body.items) == 1
+            asg = st.get(body.items[0])
+            tgt = st.get(asg.fields["target"])
+            ok = ok and asg.cls is N.Assign and tgt.cls is N.Name and tgt.fields["name"] == "result" and tgt.fields["ctx"] == "store" and _same(asg.fields["node"], self.expr)
+        except Exception:  # noqa
+            ok = False
+        if not ok or not _same(fs.args[0], self.env):
+            return False
+        f = st.get(out.value).fields if isinstance(out.value, Ref) else {}
+        if not (_same(out.value, te.result) and _same(f.get("_template"), fs.result) and _same(f.get("_undefined_to_none"), self.u2n)):
+            return False
+        return self.eos.t
+
+    posts = [("wraps_one_expression_as_result", p_result)]
+
+    def concretize(self, model, pre, out):
+        return {"eos": bool(model_value(model, self.eos.t))}
+
+    def replay(self, w):
+        return native_expressions(w)
+
+
+class Resolve(VC):
+    """Context.resolve_or_missing(key): vars[key] if present, else parent[key] if present, else `missing`;
+    Context.resolve(key): the same, with `missing` replaced by environment.undefined(name=key)."""
+    prop = PROP
+
+    def __init__(self, fn):
+        self.fn = fn
+        self.target = f"jinja2.runtime:Context.{fn}"
+        VC.__init__(self, PROP, f"C02.context.{fn}")
+
+    def configure(self, I):
+        I.inline.add("jinja2.runtime:Context.resolve_or_missing")
+        I.specs["Environment.undefined"] = A.abstract_fn("undefined", returns="obj", tags=("undefined",))
+
+    def setup(self, I, st):
+        self.vars = A.adict(st, "vars", "str", "obj")
+        self.parent = A.adict(st, "parent", "str", "obj")
+        self.env = A.obj(st, ENV.Environment, "environment")
+        self.ctx = A.obj(st, RT.Context, "self", fields={"vars": self.vars, "parent": self.parent, "environment": self.env})
+        self.key = sym("key", "str")
+        hv, hp = st.get(self.vars), st.get(self.parent)
+        self.V, self.Pm = (hv.dom, hv.val), (hp.dom, hp.val)
+        # requires: the stored values are template values, not the `missing` sentinel (C03: stores never bind `missing`)
+        k = z3.String(fresh_name("k"))
+        st.assume(z3.ForAll([k], z3.And(z3.Select(hv.val, k) != host_const(missing), z3.Select(hp.val, k) != host_const(missing))))
+        return [self.ctx, self.key], {}
+
+    def p_value(self, pre, out):
+        if out.raised:
+            return False
+        k = self.key.t
+        in_v, in_p = z3.Select(self.V[0], k), z3.Select(self.Pm[0], k)
+        und = A.calls(out, "undefined")
+        found = z3.If(in_v, z3.Select(self.V[1], k), z3.Select(self.Pm[1], k))
+        if self.fn == "resolve_or_missing":
+            if und:
+                return False
+            return to_term(out.value, "obj") == z3.If(z3.Or(in_v, in_p), found, host_const(missing))
+        if und:
+            e = und[0]
+            ok = len(und) == 1 and not e.args[1:] and set(e.kwargs) == {"name"} and _same(e.kwargs["name"], self.key) and _same(out.value, e.result)
+            return z3.And(z3.Not(in_v), z3.Not(in_p)) if ok else False
+        return z3.And(z3.Or(in_v, in_p), to_term(out.value, "obj") == found)
+
+    def p_frame(self, pre, out):
+        st = out.st
+        hv, hp = st.get(self.vars), st.get(self.parent)
+        return hv.dom.eq(self.V[0]) and hv.val.eq(self.V[1]) and hp.dom.eq(self.Pm[0]) and hp.val.eq(self.Pm[1])
+
+    posts = [("vars_then_parent_then_undefined", p_value), ("context_unchanged", p_frame)]
+
+    def concretize(self, model, pre, out):
+        k = self.key.t
+        return {"fn": self.fn, "in_vars": bool(model_value(model, z3.Select(self.V[0], k))), "in_parent": bool(model_value(model, z3.Select(self.Pm[0], k)))}
+
+    def replay(self, w):
+        env = jinja2.Environment()
+        parent = {"k": "from-parent"} if w.get("in_parent") else {}
+        ctx = RT.Context(env, parent, "t", {})
+        if w.get("in_vars"):
+            ctx.vars["k"] = "from-vars"
+        got = getattr(ctx, w.get("fn", "resolve"))("k")
+        want = "from-vars" if w.get("in_vars") else ("from-parent" if w.get("in_parent") else None)
+        if want is None:
+            bad = not (got is missing if w.get("fn") == "resolve_or_missing" else (isinstance(got, jinja2.Undefined) and got._undefined_name == "k"))
+        else:
+            bad = got != want
+        return (bad, f"Context.{w.get('fn')}('k') with vars={dict(ctx.vars)} parent={parent}: {got!r}")
+
+
+# =====================================================================================================================
+
+TASKS = (
+    c02_parser.parser_tasks()
+    + [FnTask(PROP, "C02.tables.operators", operator_tables, "table", native_expressions)]
+    + emission_tasks()
+    + [LookupOrder("getattr"), LookupOrder("getitem"), LookupOrder("getitem", "nonstr")]
+    + [CompileExpression(), ExprCall(), Resolve("resolve"), Resolve("resolve_or_missing")]
+    + c02_eval.make_tasks(4) + c02_eval.EXTRA_TASKS
+)
+
+META = {
+    "level": "other",
+    "explanation": (
+        "Proof of mechanism. Every step an expression takes is under contract on the real source: (1) each level of the parser's "
+        "precedence chain against the documented grammar rule of that level (callee = next level, operator set, left fold, operands in "
+        "source order; loops cut by induction over a generic loop-head state, the accumulator being identified from the result, not by "
+        "name); (2) the operator tables from lexer symbol to Python operator, checked exhaustively; (3) the emission schema of every "
+        "expression visitor (Python operator form, operands in source order, environment.getattr/getitem, literals, undefined(name=...), "
+        "filter/test call shape, call signature); (4) Environment.getattr/getitem lookup order over the ghost trace of data-object lookups; "
+        "(5) compile_expression / TemplateExpression.__call__ / Context.resolve. Composition (argued, not machine-checked): by structural "
+        "induction on the expression tree - the parser builds for each construct the node the rule of its level prescribes with sub-trees "
+        "produced by the next levels (1), the compiler emits for each node the documented Python form over the emitted forms of its "
+        "children (3) using the agreed operator (2), Python evaluates that form with its own operator semantics (trusted), names and "
+        "lookups go through (4)/(5). The bounded differential stand-in C02.bounded.eval exercises the composition on seeded whole "
+        "expressions against an independent reference evaluator; it is reported as bounded, never as proved."),
+    "assumptions": [
+        "A-PY the emitted Python operator form means Python's operator semantics (trusted: CPython)",
+        "token types come from the lexer's fixed vocabulary: no token TYPE is spelled `name:<word>` (C01 lexer facts)",
+        "parse_* callees and TokenStream methods are used through their contracts (C01.parser.* / C01.stream.*): fresh operand node, stream left at an arbitrary token",
+        "children's visit / as_const are used through abstract contracts (modular emission)",
+        "stores never bind the `missing` sentinel into context.vars / parent (C03)",
+        "built-in filters and tests themselves are C22 / C23",
+        "docs are silent on: unary minus binding tighter than ** (taken from the property statement), `x[]` (empty subscript tuple)",
+    ],
+    "trusted_base": ["pyvc symbolic executor and emission engine", "z3 / cvc5", "contracts.c01_parser abstract token stream model (shared with C01)",
+                     "CPython ast module (parsing emitted text)"],
+}
